@@ -221,3 +221,49 @@ func H_C11_uniquifier() {
 	verifCover("cached")
 	verifAssert(present == (mine == theirs), "a notification is recorded iff it carries this attempt's uniquifier")
 }
+
+// ---- fork ids with two dimensions: names stay unique ----
+
+func c11Part(mode int, idx int, keys []string) *ForkSourcePart {
+	call := &syntax.CallStm{Id: "C", DecId: "C"}
+	if mode == 0 {
+		src := &syntax.ArrayExp{Value: []syntax.Exp{&syntax.IntExp{Value: 1}, &syntax.IntExp{Value: 2}, &syntax.IntExp{Value: 3}}}
+		return &ForkSourcePart{Split: &syntax.SplitExp{Call: call, Source: src, Value: src}, Id: arrayIndexFork(idx)}
+	}
+	m := &syntax.MapExp{Kind: syntax.KindMap, Value: map[string]syntax.Exp{}}
+	for _, k := range keys {
+		m.Value[k] = &syntax.IntExp{Value: 1}
+	}
+	return &ForkSourcePart{Split: &syntax.SplitExp{Call: call, Source: m, Value: m}, Id: mapKeyFork(keys[idx])}
+}
+
+// H_C11_nestedIds(outerMode, innerMode): a call mapped inside a mapped
+// pipeline has fork ids with two parts, each an index into a 3-element array
+// (mode 0) or a key of a 3-key map (mode 1; keys are arbitrary distinct
+// one-byte strings).  Two forks of the same node with different ids never get
+// the same directory / fully qualified name / journal name.
+func H_C11_nestedIds(outerMode, innerMode int) {
+	keys := []string{verifString("k0", 1), verifString("k1", 1), verifString("k2", 1)}
+	verifAssume(keys[0] != keys[1] && keys[0] != keys[2] && keys[1] != keys[2])
+	pick := func(name string) int {
+		i := verifInt(name)
+		verifAssume(verifAll(i >= 0, i < 3))
+		return verifConcretize(i)
+	}
+	a0, a1, b0, b1 := pick("x.outer"), pick("x.inner"), pick("y.outer"), pick("y.inner")
+	x := ForkId{c11Part(outerMode, a0, keys), c11Part(innerMode, a1, keys)}
+	y := ForkId{c11Part(outerMode, b0, keys), c11Part(innerMode, b1, keys)}
+	sx, ex := x.ForkIdString()
+	sy, ey := y.ForkIdString()
+	verifCover("nested ids named")
+	verifAssert(ex == nil && ey == nil, "C11: a fully resolved two-dimensional fork id has a name")
+	if ex != nil || ey != nil {
+		return
+	}
+	if a0 != b0 || a1 != b1 {
+		verifAssert(sx != sy, "C11: forks of one node with different ids get different directories")
+		verifAssert(encodeJournalName.Replace(sx) != encodeJournalName.Replace(sy), "C11: forks of one node with different ids get different journal names")
+	} else {
+		verifAssert(sx == sy, "C11: the same id always gets the same name")
+	}
+}
